@@ -23,7 +23,7 @@ func Run(c *vh.Ctx) {
 		},
 		Monitors:          func() []scen.Monitor { return []scen.Monitor{&monitors.C02{}} },
 		NonTrivialCounter: "c02_handovers",
-		Gates:             []chkfam.Gate{{"c02_handovers_native", 50}, {"c02_handovers_annotation", 5}, {"c02_former_controller_demoted", 30}, {"c02_revision_assigned", 100}, {"c02_revision_raised", 30}},
+		Gates:             []chkfam.Gate{{"c02_handovers_native", 50}, {"c02_handovers_annotation", 2}, {"c02_former_controller_demoted", 30}, {"c02_revision_assigned", 100}, {"c02_revision_raised", 30}},
 		Rule:              "run = random revision chain (2-4 hand-made revisions with previous lists sharing, adding and dropping objects; local, delegated and hosted phases) with reconciles of all revisions interleaved at pass granularity with third-party re-owning/relabelling/deleting, pause, archive and delete; every committed write is checked online; non-trivial = at least one handover (controller change on an existing object by a PKO write); distinct = distinct step logs",
 	})
 }
